@@ -231,7 +231,9 @@ def run_generic(module_names, qname, obligation, model):
             ok = _call(clause, env2)
         except Exception as e:
             print('clause raised', repr(e))
-            ok = False
+            print('the clause cannot be evaluated natively on the rebuilt input (stubs answer with defaults): '
+                  'not counted as a reproduction')
+            return 2
         print('clause ensures[%s] evaluates to %r on the real result' % (m.group(1), bool(ok)))
         return 0 if ok else 1
     if ' : raises_only(' in obligation:
